@@ -290,6 +290,22 @@ func checkC08(c *Ctx) {
 		vp := valuePaths(st.Val)
 		switch {
 		case len(vp) == 1 && vp[0] == "const:true":
+			// `if parent.Statement.Unscoped { child.Statement.Unscoped = true }` is a copy of the parent's setting
+			copied := false
+			if src := p.srcOfSSA(st.Fn); src != nil && st.Fn != p.SSAFunc(unM) {
+				if facts, live := p.Guards(src, nil).At(st.Pos); live {
+					for fc := range facts {
+						if strings.HasPrefix(fc, "T:") && strings.HasSuffix(fc, ".Statement.Unscoped") {
+							copied = true
+						}
+					}
+				}
+			}
+			if copied {
+				ru.OK(name, "Unscoped = true under another statement's Unscoped", st.Pos, "propagation of the parent's setting")
+				propagators[rootSSA(st.Fn).Name()] = true
+				continue
+			}
 			ru.Check(st.Fn == p.SSAFunc(unM), name, "Unscoped = true", st.Pos, "the user-facing Unscoped()", "Statement.Unscoped is forced to true outside (*DB).Unscoped: soft-deleted rows become visible without the user asking")
 		case len(vp) >= 1 && allSuffix(vp, ".Unscoped"):
 			ru.OK(name, "Unscoped copied from "+strings.Join(vp, "|"), st.Pos, "propagation of the parent's setting")
